@@ -25,7 +25,12 @@ def declare_enum(name, members, values=None):
     return _ENUMS[name]
 
 
+ENUM_LOADER = None   # set by spec.py: declares an enum from the real class body on first use
+
+
 def enum_info(name):
+    if name not in _ENUMS and ENUM_LOADER is not None:
+        ENUM_LOADER(name)
     return _ENUMS[name]
 
 
@@ -72,7 +77,7 @@ class Ty:
         if k in ("none", "empty"):
             return ()
         if k == "enum":
-            return (_ENUMS[self.name][0],)
+            return (enum_info(self.name)[0],)
         if k == "ref":
             return (RefSort,)
         if k == "opt":
